@@ -222,9 +222,9 @@ def classify(case, impl, model):
             d = [i for i, (x, y) in enumerate(zip(ir.split(), mr.split())) if x != y]
             return "P", "Lookup disagrees with the reference scan at query #%s: impl=%s model=%s" % (
                 d[:3], [ir.split()[i] for i in d[:3]], [mr.split()[i] for i in d[:3]])
-        if iv.split()[:1] != mv.split()[:1]:
+        if iv != mv:
             return "P", "ValidateMatchIndex verdict differs: impl=%r model=%r" % (iv, mv)
-        return "G", "collision report differs: impl=%r model=%r" % (iv, mv)
+        return "G", "lines differ outside the compared observables: impl=%r model=%r" % (impl, model)
     if k == "sweep":
         iv, ir = _split(impl)
         mv, mr = _split(model)
@@ -234,9 +234,9 @@ def classify(case, impl, model):
                          "svlan:cvlan %s (impl %s, model %s)" % (ik.get("diff"), ir, mr))
         if ik.get("md5") != mk.get("md5"):
             return "P", "exhaustive sweep: digest of the 4096x4096 classification table differs: impl=%r model=%r" % (ir, mr)
-        if iv.split()[:1] != mv.split()[:1]:
+        if iv != mv:
             return "P", "ValidateMatchIndex verdict differs: impl=%r model=%r" % (iv, mv)
-        return "G", "collision report differs: impl=%r model=%r" % (iv, mv)
+        return "G", "lines differ outside the compared observables: impl=%r model=%r" % (impl, model)
     if k == "runes":
         a, b = set(impl.split(",")), set(model.split(","))
         return "P", "parsers treat code points differently (runes %s): only impl %s, only model %s" % (
@@ -280,8 +280,8 @@ def shrink(case):
 
 
 def distribution(cases, impl):
-    d = {"parse": 0, "parse_ok": 0, "cvlan": 0, "cvlan_ok": 0, "cfg": 0, "cfg_collision": 0, "lookup_hits": 0,
-         "lookup_misses": 0, "cfgnil": 0, "sweep": 0, "sweep_pairs": 0, "sweep_hits": 0, "sweep_collision": 0,
+    d = {"parse": 0, "parse_ok": 0, "cvlan": 0, "cvlan_ok": 0, "cfg": 0, "cfg_rejected": 0, "lookup_hits": 0,
+         "lookup_misses": 0, "cfgnil": 0, "sweep": 0, "sweep_pairs": 0, "sweep_hits": 0, "sweep_rejected": 0,
          "sweep_rowruns_max": 0, "runes": 0, "runes_code_points": 0}
     seen = set()
     for c, o in zip(cases, impl):
@@ -289,14 +289,14 @@ def distribution(cases, impl):
         d[k] += 1
         if k in ("cfg", "cfgnil"):
             v, r = _split(o)
-            d["cfg_collision"] += v.startswith("collision")
+            d["cfg_rejected"] += v.startswith("rejected")
             r = r.split()
             d["lookup_misses"] += r.count("none")
             d["lookup_hits"] += len(r) - r.count("none")
         elif k == "sweep":
             v, r = _split(o)
             kv = _kv(r)
-            d["sweep_collision"] += v.startswith("collision")
+            d["sweep_rejected"] += v.startswith("rejected")
             d["sweep_pairs"] += 4096 * 4096
             d["sweep_hits"] += int(kv.get("hits", 0))
             d["sweep_rowruns_max"] = max(d["sweep_rowruns_max"], int(kv.get("rowruns", 0)))
